@@ -53,7 +53,7 @@ def gen_ops_live(rnd):
             if t < 0.70:
                 code, mask = ord(rnd.choice("abcdefghijklmnopqrstuvwxyz")), 0
             elif t < 0.80:
-                code, mask = ord(rnd.choice("12345,.;'")), 0
+                code, mask = ord(rnd.choice("12345,.;'\"'\"[]<>")), 0
             elif t < 0.95:
                 code, mask = XK[rnd.choice(list(XK))], 0
             else:
@@ -121,8 +121,22 @@ def gen_script(rnd, nsess, length):
             elif r < 0.10:
                 lines.append("%d find" % lg)
             elif r < 0.115:
+                # ids handed out after a clean-up must still be distinct from each other and from live ones
+                victims = sorted(k for k, v in live.items() if v)
+                if victims and rnd.random() < 0.7:
+                    v = rnd.choice(victims)
+                    lines.append("%d destroy" % v)
+                    live[v] = False
                 lines.append("0 cleanup_all")
                 live = {}
+                for k in range(1, nsess + 1):
+                    if rnd.random() < 0.8:
+                        lines.append("%d create" % k)
+                        live[k] = True
+                        for op in ("key 110 0", "key 105 0", "get_context"):
+                            lines.append("%d %s" % (k, op))
+                for k in sorted(k for k, v in live.items() if v):
+                    lines.append("%d get_context" % k)
             elif r < 0.16:
                 # let time pass and sweep: sessions idle for more than 300 s are recycled, the others stay
                 lines.append("0 advance %d" % rnd.choice([10, 150, 200, 290, 301, 400]))
@@ -144,6 +158,13 @@ def gen_script(rnd, nsess, length):
             else:
                 for op in gen_ops_live(rnd):
                     lines.append("%d %s" % (lg, op))
+                # stateful punctuation (paired quotes, alternating symbols): the same key pressed in turn by several sessions
+                if rnd.random() < 0.12:
+                    key = rnd.choice([34, 39, 34, 91, 60])
+                    for k in sorted(k for k, v in live.items() if v):
+                        for _ in range(rnd.choice([1, 1, 2, 3])):
+                            lines.append("%d key %d 0" % (k, key))
+                            lines.append("%d get_commit" % k)
                 # let the OTHER live sessions look at everything a leak could show up in
                 if rnd.random() < 0.35:
                     for other in sorted(k for k, v in live.items() if v and k != lg):
@@ -310,10 +331,19 @@ def run(ctx):
                                "how": "run harness/c16 on the script (all sessions) and on the lines of this session alone in a fresh process"},
                               found_input=True)
         # --- accept/reject pattern vs the service model, and rejected observations
+        live_canon = {}
         for r in rows:
             if r["obs"] == "skipped-aliased":
                 continue
             op = r["op"]
+            # forget logical sessions that are no longer live
+            if op in ("cleanup_all",):
+                live_canon = {}
+            if op == "destroy":
+                live_canon.pop(r["lg"], None)
+            if op == "cleanup_stale":
+                sim_after = simulate(lines[:r["lineno"]])[1]
+                live_canon = {k: v for k, v in live_canon.items() if sim_after.get(k)}
             if op == "cleanup_all":
                 model_feed.append("cleanup")
                 model_expect.append((si, r, "unit"))
@@ -326,6 +356,13 @@ def run(ctx):
             elif op == "create":
                 model_feed.append("create %s" % r["canon"])
                 model_expect.append((si, r, "created %s" % r["canon"]))
+                # the property's own clause: ids of live sessions are pairwise distinct
+                holders = [lg2 for lg2, c2 in live_canon.items() if c2 == r["canon"] and lg2 != r["lg"]]
+                if r["canon"] != "0" and holders:
+                    ctx.violation("live-ids-not-distinct", "create_session returned the id of a session that is still live",
+                                  {"script": lines, "line": r["lineno"], "id": r["canon"], "also_held_by_logical_session": holders},
+                                  found_input=True)
+                live_canon[r["lg"]] = r["canon"]
             elif op == "destroy":
                 model_feed.append("destroy %s" % r["canon"])
                 model_expect.append((si, r, r["obs"]))
@@ -376,6 +413,11 @@ def run(ctx):
 
 
 MUTATION_DRILLS = [
+    {"change": "seeded C16-1..4 (see /verif/seeded/C16-*/meta.json): lazy engine creation; GetSession cache surviving the stale sweep; "
+               "punctuator pair state in a process-wide static; sequential ids with a free list surviving cleanup_all",
+     "result": "each first missed, each detected with a concrete script after the generator/oracle/model strengthening recorded in the meta files "
+               "(creation-window pattern; clock + CleanupStale in the model and virtual clock in the harness; stateful-punctuation pattern; "
+               "live-ids-not-distinct oracle + destroy/cleanup_all/create pattern)"},
     {"change": "Service::GetSession keeps a static (last_id, last_session) fast path that is not invalidated by DestroySession",
      "compiles": True, "ran": "VERIF_REPO=<scratch worktree> VERIF_CACHE=<scratch> bin/check C16 quick",
      "result": "VIOLATION key=service-bookkeeping:key (a key event accepted on an id the model says is dead), concrete script"},
